@@ -5,6 +5,9 @@ ALL = ["C%02d" % i for i in range(1, 21)]
 
 # id -> (level text, level note, technique)
 CLAIMED = {
+ "C08": ("That maintained totals equal a recomputation is a value property and is NOT decided. Decided (core/state, staking, consensus/ucon): (V1) tabled writers of the live validator map and statistics, UpdateValidator/CreateValidator adjust statistics with the right records under !StakeEqual, undo entries apply the opposite adjustment; (V2) every validator field the statistics read is compared by StakeEqual; (V3) every in-place change of a Stake/SelfStake amount derives from params.YOUToStake or is a tabled copy/decoder/aggregate; (V4) UpdateDelegation updates validator and delegator sides together, UpdateDelegator updates list and balance together; (V5) sortition reads GetStakeByKind.",
+         "Trusted: go/types + go/ssa; tables in ycheck/rules_c08.go.",
+         "who-may-call confinement, do/undo mirror with argument identity, field-read exhaustiveness, provenance of stake operands"),
  "C07": ("The conservation sum is arithmetic over histories and is NOT decided. Decided structural pairing clauses (staking, core, core/state): (P1) no validator value is used twice on a path as the pre-image of a replacement, directly or through callees summarised as replacing a parameter (typestate stale-after-replace); (P2) teDeposit/teDelegationAdd on every return credited, refunded the value to the sender, or run pre-V5, and both handler registries cover the same actions; (P3) a withdrawal is paid under Finished==0, marked finished, amount = FinalBalance; (P4) every balance mutation outside EVM/state is a tabled site with counterpart, subsidy debit enters the total, gas priced with one GasPrice.",
          "Trusted: go/types + go/ssa; tables in ycheck/rules_c07.go; integer residues are the reward code's business.",
          "typestate (stale-after-replace) with bottom-up parameter summaries, all-paths-pass-edge exit analysis, confinement inventory"),
